@@ -21,7 +21,8 @@ engine.use_repo()
 PID = "C10"
 CHUNK = 2
 RULE = ("scenarios from the grammar in harness/scen.py (fixed load, generation surplus, prices around the threshold, "
-        "station/vehicle minimum power, stationary batteries incl. unlimited, V2G, CONCURRENCY), strategies greedy and "
+        "station/vehicle minimum power, stationary batteries incl. unlimited, V2G, CONCURRENCY; plus a directed family "
+        "with battery support at a connector whose headroom is used up or negative), strategies greedy and "
         "balanced; every strategy step of every run is one model evaluation; non-trivial = a step in which at least one "
         "station or battery carries power; distinct = distinct (seed, index, strategy)")
 ASSUMPTIONS = ["model vs implementation: floats compared by value (+0.0 == -0.0), no tolerance; reference specification vs implementation: 1e-9 relative (it is a restatement, not a transliteration)",
@@ -184,6 +185,11 @@ def gen_cases(tier, seed):
     for i in range(n):
         for st in ("greedy", "balanced"):
             yield {"seed": seed, "i": i, "strategy": st, "pid": PID}
+    # directed: stationary-battery support at a connector whose headroom is used up or negative (expensive power,
+    # several needy vehicles at one small connector, fixed load around / above the limit)
+    for i in range(60 if tier == "quick" else 1000):
+        for st in ("greedy", "balanced"):
+            yield {"seed": seed, "i": i, "strategy": st, "pid": PID, "family": "support"}
 
 
 def eval_case(case):
@@ -191,9 +197,29 @@ def eval_case(case):
     if "scenario" in case:
         full = case
     else:
-        rng = random.Random("C10:%s:%s:%s" % (case["seed"], case["i"], case["strategy"]))
-        full = scen.gen_scenario(rng, strategy=case["strategy"], feasible=True, max_steps=36,
-                                 features={"window": False, "window_signal": False})
+        rng = random.Random("C10:%s:%s:%s:%s" % (case["seed"], case["i"], case["strategy"], case.get("family", "")))
+        if case.get("family") == "support":
+            full = scen.gen_scenario(rng, strategy=case["strategy"], n_gc=1, feasible=True, max_steps=20,
+                                     features={"window": False, "window_signal": False, "battery": True,
+                                               "price_signal": False, "generation": False, "fixed_load": True,
+                                               "limit_signal": False, "v2g": False})
+            comp, ev = full["scenario"]["components"], full["scenario"]["events"]
+            full["options"].pop("PRICE_THRESHOLD", None)
+            rating = rng.choice([5, 11, 20])
+            for gc in comp["grid_connectors"].values():
+                gc["max_power"] = rating
+                gc["cost"] = {"type": "fixed", "value": 0.3}
+            for b in comp["batteries"].values():
+                b["soc"] = rng.choice([0.3, 0.5, 1.0])
+                b["capacity"] = rng.choice([50, 200])
+            for v in comp["vehicles"].values():
+                v["soc"] = rng.choice([0.1, 0.2, 0.4])
+            lvl = rng.choice([0.5, 0.9, 1.0, 1.3])
+            for fl in ev["fixed_load"].values():
+                fl["values"] = [round(rating * lvl * rng.uniform(0.8, 1.0), 3) for _ in fl["values"]]
+        else:
+            full = scen.gen_scenario(rng, strategy=case["strategy"], feasible=True, max_steps=36,
+                                     features={"window": False, "window_signal": False})
         full["pid"] = PID
     rule = "g" if full["strategy"] == "greedy" else "b"
     cls = st_mod.class_from_str(full["strategy"])
